@@ -3,7 +3,7 @@ from . import common, lib, reduce
 from .lib import M, E, sym
 from fxai.interp import Broken
 
-T46 = (1 << 46) - 1
+T46 = (1 << 62) - 1      # |x| < 2^46 as a value is |raw| < 2^62
 DOM = ("i", -T46, T46)
 EXTRA = [
     E("w_phi", [], "fx", "return phi.v;"),
@@ -35,7 +35,7 @@ def run(tier, seed):
             r = ctx.run("w_sin", [DOM])
             if len(r.paths) < 4:
                 V.broke("w_sin: only %d paths" % len(r.paths))
-            w = reduce.check_reduction(V, r, m, "|x| < 2^46", "sin(x + k*2*phi) == sin(x)", "sin")
+            w = reduce.check_reduction(V, r, m, "|x| < 2^46 (raw below 2^62)", "sin(x + k*2*phi) == sin(x)", "sin")
             info[cfg] = {"phi": phi, "period": m, "window": list(w), "paths": len(r.paths)}
             for a in r.alarms:
                 if a.status == "violation":
@@ -49,7 +49,7 @@ def run(tier, seed):
             lib.check_equiv(V, rc, ro, "cos(x) == sin(x + fixpidiv2)", site="cos")
         except Broken as e:
             V.broke("%s: %s" % (cfg, e))
-    expl = ("DECIDED (exact periodicity): on every path of sin over |x| < 2^46 an intermediate value r of that path is exhibited with "
+    expl = ("DECIDED (exact periodicity): on every path of sin over |x| < 2^46 (|raw| < 2^62) an intermediate value r of that path is exhibited with "
             "(1) r congruent to x modulo 2*phi.v (remainder symbols replaced by the forms they reduce), (2) all r inside one window of "
             "at most 2*phi.v integers, (3) the path's returned form identical to the form returned by abstract re-execution of sin on the "
             "argument r. Hence sin(x) = G(x mod 2phi) and sin(x + k*2phi) == sin(x) bit for bit; no overflow on the domain. cos is shown equal "
